@@ -366,8 +366,8 @@ def judge_report(specs, rules, response, missing, show, evname):
     return bad
 
 
-def run_report(specs, missing, show, evname, driver="serial"):
-    rules = build_rules(specs)
+def run_report(specs, missing, show, evname, driver="serial", late=False):
+    rules = None if late else build_rules(specs)
     broker = dr.Broker()
     import io
     if evname == "single":
@@ -379,10 +379,12 @@ def run_report(specs, missing, show, evname, driver="serial"):
         ev = JsonFormat(broker, missing=missing, render_content=True, show_rules=list(show), stream=io.StringIO())
     else:
         ev = JsonFormat(broker, missing=missing, show_rules=list(show), stream=io.StringIO())
-    graph = {}
-    for r in rules:
-        graph.update(dr.get_dependency_graph(r))
     with ev:
+        if late:
+            rules = build_rules(specs)      # a rule module loaded after the evaluator / formatter was set up
+        graph = {}
+        for r in rules:
+            graph.update(dr.get_dependency_graph(r))
         if driver == "serial":
             ev.run_serial(graph)
         else:
@@ -407,9 +409,10 @@ def make_o3(nrules):
             show = [t for t in SHOW if en.flag("show_" + t)]
             evname = EVALUATORS[en.choice("ev", len(EVALUATORS))]
             driver = ["serial", "incremental"][en.choice("driver", 2)]
-            case = lambda mv: {"specs": [list(s) for s in specs], "missing": missing, "show": show, "ev": evname, "driver": driver}  # noqa
+            late = en.flag("late")
+            case = lambda mv: {"specs": [list(s) for s in specs], "missing": missing, "show": show, "ev": evname, "driver": driver, "late": late}  # noqa
             en.note_sample(case)
-            rules, response = run_report(specs, missing, show, evname, driver)
+            rules, response = run_report(specs, missing, show, evname, driver, late)
             bad = judge_report(specs, rules, response, missing, show, evname)
             en.must_hold(not bad, "reported-once", case, detail=bad)
     return o3
@@ -434,7 +437,7 @@ def obligations(tier):
         Obligation("O3-reporting", make_o3(3 if thorough else 2), ["reported-once"],
                    desc="SingleEvaluator, JsonFormat and YamlFormat, serial and incremental evaluation: every rule result listed once under its own heading with key/component/tags/links; type filter removes exactly the unselected headings",
                    bounds={"rules": 3 if thorough else 2, "result kinds": RTYPES, "keys": "2 values (equal keys allowed)",
-                           "missing": "both", "show_rules": "every subset of %s" % SHOW, "evaluators": EVALUATORS, "drivers": ["run_serial", "run_incremental"]}, encoded=enc[7:],
+                           "missing": "both", "show_rules": "every subset of %s" % SHOW, "evaluators": EVALUATORS, "drivers": ["run_serial", "run_incremental"], "rules defined": ["before the evaluator is set up", "after it was entered"]}, encoded=enc[7:],
                    outside=["jinja rendering", "text/html/yaml/syslog formatters (share Evaluator; their output syntax is not parsed back)"],
                    budget_s=900 if thorough else 150, replay="report", check_sample=True),
     ]
@@ -489,7 +492,7 @@ def _native(case):
             return [] if dict(r) == stub else ["over-long response became %r expected %r" % (dict(r), stub)]
         return [] if dict(r) == full else ["response altered: %r expected %r" % (dict(r), full)]
     specs = [tuple(s) for s in case["specs"]]
-    rules, response = run_report(specs, case["missing"], case["show"], case["ev"], case.get("driver", "serial"))
+    rules, response = run_report(specs, case["missing"], case["show"], case["ev"], case.get("driver", "serial"), case.get("late", False))
     return judge_report(specs, rules, response, case["missing"], case["show"], case["ev"])
 
 
